@@ -34,6 +34,11 @@ def world(env):
          "!p": m.Not(p), "c1=c2": m.Equals(c1, c2), "!q": m.Not(q), "u<2": m.BVULT(u, m.BV(2, 2)),
          # r only occurs in a part that simplification removes
          "p&(r|!r)": m.And(p, m.Or(m.Symbol("r"), m.Not(m.Symbol("r")))),
+         # symbols of a user sort that occur only in a part that simplification removes
+         "p&(c1=c2|!c1=c2)": m.And(p, m.Or(m.Equals(c1, c2), m.Not(m.Equals(c1, c2)))),
+         # symbols that occur only inside an array literal (default element, stored value)
+         "M=lit": m.Equals(m.Symbol("M", mk_type(env, ("Array", B2, BOOL))),
+                           m.Array(mk_type(env, B2), m.Symbol("ax"), {m.BV(1, 2): m.Symbol("ay")})),
          # the strict solver answers unknown while kk is declared
          "kk|p": m.Or(m.Symbol(SS.UNKNOWN_SYMBOL), p)}
     T = {"p": p, "q": q, "u": u, "u+1": m.BVAdd(u, m.BV(1, 2)), "q&p": m.And(q, p)}
@@ -44,7 +49,7 @@ EVENTS_Q = [("add", "p"), ("add", "q|p"), ("add", "u=1"), ("add", "!p"), ("add",
             ("pop", 2), ("pop", 0), ("push", 0), ("reset",), ("solve",), ("value", "p"), ("value", "u+1"), ("model",), ("is_sat", "!q"),
             ("is_sat", "kk|p")]
 EVENTS_T = EVENTS_Q + [("add", "kk|p"), ("is_valid", "kk|p"), ("add", "h(p)"), ("add", "u<2"), ("value", "q&p"), ("is_valid", "q|p"), ("is_unsat", "!p")]
-EVENTS_SORT = [("add", "c1=c2"), ("add", "pa=pb"), ("add", "pc=pd"), ("push", 1), ("push", 2), ("pop", 1), ("pop", 2),
+EVENTS_SORT = [("add", "c1=c2"), ("add", "pa=pb"), ("add", "pc=pd"), ("add", "p&(c1=c2|!c1=c2)"), ("add", "M=lit"), ("push", 1), ("push", 2), ("pop", 1), ("pop", 2),
                ("reset",), ("solve",), ("is_sat", "c1=c2"), ("is_sat", "pc=pd")]
 
 
